@@ -423,5 +423,7 @@ def run(repo: Repo, tier: str) -> Report:
     attr = [st_ for st_ in ast.walk(m) if isinstance(st_, ast.Assign) and "attrs['nodata']" in ast.unparse(st_.targets[0]) and "trend" in ast.unparse(st_.targets[0])]
     rep.ob("R-BIND", AFILE, "PixelAlgorithms.mktrend", "trend.attrs['nodata'] is the all-nodata flag -2 of the kernel", len(attr) == 1 and ast.unparse(attr[0].value) == "-2",
            f"{[norm_stmt(a_) for a_ in attr]}", attr[0] if attr else "x.trend.attrs['nodata'] = -2")
+    from ..rules import r_stateless
+    r_stateless(rep, repo, [('PixelAlgorithms', 'mktrend')])
     rep.floor("C10 obligations", len(rep.obls), 40)
     return rep
